@@ -21,7 +21,7 @@ RULE = ("seeded random programs: a base (leaf or op output; C/F/strided/negative
         "Non-trivial: >=2 views with a gradient; distinct = structure hash. Evidence lists distinct (first-contributing op, layout) pairs "
         "observed at Operation.backward.")
 ASSUMPTIONS = ["functional programs only (one epoch); in-place histories are C05's", "empty tensors excluded from sharing checks"]
-TIERS = {"quick": {"cases": 3000, "nstmts": (3, 10)}, "thorough": {"cases": 300000, "nstmts": (4, 22)}}
+TIERS = {"quick": {"cases": 10000, "nstmts": (3, 10)}, "thorough": {"cases": 300000, "nstmts": (4, 22)}}
 FLOORS = {"quick": {"view_checks": 8000, "pair_checks": 50000},
           "thorough": {"view_checks": 40000, "pair_checks": 250000}}
 
